@@ -1127,6 +1127,14 @@ func compareModel(ctx *Ctx, c mgCase, o mgOutcome) (string, interface{}) {
 				return "real merger fails in format+reload (" + o.Err + "), model says " + m.Outcome + " " + m.Kind, m.Raw
 			}
 			ctx.Rep.Count("reload-error (gqlparser rejects what the model accepts: outside the model)")
+			msg := o.Err
+			if i := strings.Index(msg, ": "); i >= 0 {
+				msg = msg[i+2:]
+			}
+			if f := strings.Fields(msg); len(f) > 4 {
+				msg = "… " + strings.Join(f[len(f)-6:], " ")
+			}
+			ctx.Rep.Count("reload-error: " + msg)
 			return "", nil
 		}
 		if m.Outcome != "error" {
